@@ -338,7 +338,7 @@ def run_set_case(text, path, value):
     try:
         positions, flags = K.flatten_results(doc, res)
     except K.Unresolvable as ex:
-        return {"status": "oos", "oos": "coords-unresolvable/%s" % ex}
+        return {"status": "oos", "oos": K.oos_key(ex)}
     if not positions:
         return {"status": "oos", "oos": "zero-match/empty-result"}
     if () in positions:
@@ -642,7 +642,7 @@ def run_history(text, ops):
             try:
                 positions, flags = K.flatten_results(doc, res)
             except K.Unresolvable as ex:
-                return {"status": "oos", "oos": "coords-unresolvable/%s" % ex, "steps": n, "trace": trace}
+                return {"status": "oos", "oos": K.oos_key(ex), "steps": n, "trace": trace}
             if not positions or () in positions:
                 trace.append("skip")
                 done.pop()
